@@ -19,7 +19,7 @@ RULE = (
     "replicated and per-chain initial states. non-trivial = >=2 chains, >=2 kernels and chunk < some "
     "duration; distinct by configuration hash"
 )
-REQUIRED = ["identical_runs_bitwise", "int_seed_equals_key", "all_keys_distinct",
+REQUIRED = ["second_build_identical", "identical_runs_bitwise", "int_seed_equals_key", "all_keys_distinct",
             "other_chains_unaffected", "first_sample_is_initial_value", "first_sample_is_jittered_value",
             "jitter_keys_distinct", "multi_chain_initial_values"]
 ANCHORS = ["goose/builder.py:EngineBuilder.build", "goose/builder.py:EngineBuilder.set_initial_values",
@@ -82,7 +82,7 @@ def init_state(rng=None, offset=0.0):
             "c": jnp.asarray([1.0, 2.0, 3.0], jnp.float32) * 0.1 + offset}
 
 
-def run_builder(cfg, seed, states=None, multi=False, jitter=None, show=False):
+def run_builder(cfg, seed, states=None, multi=False, jitter=None, show=False, second_build=False):
     import liesel.goose as gs
 
     b = gs.EngineBuilder(seed=seed, num_chains=cfg["chains"])
@@ -100,6 +100,11 @@ def run_builder(cfg, seed, states=None, multi=False, jitter=None, show=False):
         b.set_jitter_fns(jitter)
     eng = b.build()
     eng.sample_all_epochs()
+    if second_build:
+        # the same builder, built again: must give an identical engine
+        eng2 = b.build()
+        eng2.sample_all_epochs()
+        return eng.get_results(), eng2.get_results()
     return eng.get_results()
 
 
@@ -274,11 +279,22 @@ def case_jitter(case, res):
     mech_prefix = "multi-init:" if multi else ""
     r = None
     with liesel_call(res, "builder with jitter", case, mech_prefix=mech_prefix):
-        r = simple_tree(run_builder(cfg, s, states=states, multi=multi, jitter=fns))
+        ra, rb = run_builder(cfg, s, states=states, multi=multi, jitter=fns, second_build=True)
+        r = simple_tree(ra)
+        r_again = simple_tree(rb)
         if multi:
             res.mon("multi_chain_initial_values")
     if r is None:
         return
+    # a second build() of the same builder gives the same engine (same jittered start, same chains)
+    ok, why = leaves_equal(r["pos"], r_again["pos"])
+    res.check(ok, "second_build_identical", "second-build-differs",
+              f"building the same EngineBuilder twice gives different chains: {why}; first samples "
+              f"{ {k: np.asarray(v)[:, 0].tolist() for k, v in r['pos'].items()} } vs "
+              f"{ {k: np.asarray(v)[:, 0].tolist() for k, v in r_again['pos'].items()} }", case)
+    reports_first = list(reports[: len(reports) // 2]) if reports else []
+    if reports:
+        del reports[len(reports) // 2:]
     C = cfg["chains"]
     for k in ("a", "b", "c"):
         first = np.asarray(r["pos"][k])[:, 0]
